@@ -56,6 +56,39 @@ def aff(f, o, env, depth=0):
     raise Shape('operator ' + str(k) + ' ' + str(e.get('op', '')))
 
 
+def narrowing_wrap(f, o, env, prange, seen=None, depth=0):
+    """does the value pass, on its way, through a conversion to <= 8 bits that can wrap?  prange = (min, max) of the index
+    parameter for this node class.  Returns a description or None."""
+    e = f.resolve(o)
+    if not isinstance(e, dict) or depth > 12:
+        return None
+    if e.get('k') == 'cast':
+        w = e.get('w')
+        if w and w <= 8 and (e.get('t') or '') != 'bool':
+            try:
+                a = aff(f, e['sub'], env)
+                if set(a) <= {'p', 'k'} and a.get('p', 0) in (0, 1):
+                    lo = a.get('p', 0) * prange[0] + a.get('k', 0)
+                    hi = a.get('p', 0) * prange[1] + a.get('k', 0)
+                    unsigned = not e.get('sg')
+                    if (unsigned and (lo < 0 or hi > (1 << w) - 1)) or (not unsigned and (lo < -(1 << (w - 1)) or hi > (1 << (w - 1)) - 1)):
+                        return 'the index %s is converted to %d bits (%s) although it ranges over %d..%d for this node class' % (fmt(a), w, e.get('t'), lo, hi)
+            except Shape:
+                pass
+        return narrowing_wrap(f, e['sub'], env, prange, seen, depth + 1)
+    if e.get('k') == 'binop':
+        return narrowing_wrap(f, e['l'], env, prange, seen, depth + 1) or narrowing_wrap(f, e['r'], env, prange, seen, depth + 1)
+    if e.get('k') == 'initlist' and e.get('args'):
+        return narrowing_wrap(f, e['args'][0], env, prange, seen, depth + 1)
+    if e.get('k') == 'ref' and e.get('vk') == 'local':
+        for b, i, d in f.elements():
+            if d.get('k') == 'decl':
+                for v in d['vars']:
+                    if v['did'] == e['did'] and 'init' in v:
+                        return narrowing_wrap(f, v['init'], env, prange, seen, depth + 1)
+    return None
+
+
 def norm(a):
     return tuple(sorted((k, v) for k, v in a.items() if v != 0))
 
@@ -168,6 +201,15 @@ def describe(f, kind, method):
                         init = aff(f, v['init'], e2)
         if init is None:
             raise Shape('loop variable initialiser')
+        prange = (0, {'4': 3, '16': 15}.get(str(kind), 255))
+        for b, i, e in f.elements():
+            if e.get('k') == 'decl':
+                for v in e['vars']:
+                    if v['did'] == ivd and 'init' in v:
+                        e2 = {f.params[0]['did']: {'p': 1}} if f.params else {}
+                        wr = narrowing_wrap(f, v['init'], e2, prange)
+                        if wr:
+                            d['wrap'] = wr
         env_i = dict(env)
         env_i[ivd] = {'i': 1}
         # re-evaluate locals declared inside the loop in terms of i
@@ -315,6 +357,8 @@ def compare(d, s, kind, method):
         return out, False
     if d['start'] != s['start']:
         out.append('the scan starts at %s instead of %s' % (fmt(dict(d['start'])), fmt(dict(s['start']))))
+    if d.get('wrap'):
+        out.append('the start of the scan wraps around: %s - stepping past the last (resp. before the first) key byte starts the scan over from the other end instead of reporting "no further child"' % d['wrap'])
     op, bound = d['cond']
     if s['dir'] == 'up':
         if d['step'] != '++':
